@@ -22,14 +22,21 @@
     * a file whose time range equals the export range is written twice.
   Core Lean only.
 -/
+import Influx.Generated.BackupConsts
+
 namespace Influx.Backup
 
 abbrev Key := Nat
 abbrev TS := Int
 abbrev Val := Int
 
-/-- tsdb.DefaultMaxPointsPerBlock -/
-def blockSize : Nat := 1000
+/-- tsdb.DefaultMaxPointsPerBlock (regenerated from tsdb/config.go on every run) -/
+def blockSize : Nat := Influx.Generated.BackupConsts.DefaultMaxPointsPerBlock
+
+/-- `readFileFromBackup`: `strings.HasSuffix(hdr.Name, TSMFileExtension)` — which entry
+    names Restore / Import read at all (constants regenerated from the source) -/
+def restoresName (name : String) : Bool :=
+  name.endsWith Influx.Generated.BackupConsts.TSMFileExtension
 
 /-- series universe of the harness (k0..k5) -/
 def nKeys : Nat := 6
